@@ -1,6 +1,7 @@
 (* C13 — Building from several sources is compositional; extension placement does not matter.
    Property theorems only.  Model: Schema/Build.v (SchemaBuilder of schema/from_ast.rs). *)
-From ApolloVerif Require Import Base.Chars Ast.Ast Schema.Model Schema.Build Schema.BuildProofs.
+From ApolloVerif Require Import Base.Chars Ast.Ast Schema.Model Schema.Build Schema.Canon Schema.Builtin
+  Schema.BuildProofs Schema.CommuteProofs.
 From Coq Require Import Permutation.
 
 (* the builder is a fold over definitions: adding the documents d1 ++ d2 one after another is adding d1,
@@ -21,24 +22,41 @@ Check C13_schema_concat : forall cfg b0 docs,
   sb_build_docs cfg b0 docs = sb_build cfg b0 (concat docs).
 Print Assumptions C13_schema_concat.
 
-(* Full statement (C13_extension_commutes):
-     forall cfg b0 pre e d mid post, sb_extends e d = true -> mid does not touch the target of e ->
-       sb_build cfg b0 (pre ++ e :: d :: mid ++ post)  and  sb_build cfg b0 (pre ++ d :: mid ++ e :: post)
-       are both a panic, or have schemas equal up to a renaming of extension ids (sch_equiv) and error
-       lists that are permutations of each other.
-   Proved: the case mid = [] (the extension directly before vs directly after the definition of its
-   target — a type of any of the six kinds, or the schema definition; any prefix, any suffix, both builder
-   configurations, including kind-mismatched extensions, colliding definitions and built-in types): there
-   the two schemas are EQUAL (same extension ids) and the error lists are permutations.
-   Missing: moving the extension across the definitions `mid` in between (needs the renaming of ids). *)
-Theorem C13_extension_commutes_partial : forall cfg b0 pre e d post,
+(* Moving an extension e of the type / schema definition that d defines from directly before d to
+   after the definitions `mid` that follow d, none of which touches what e extends (sb_untouched: no
+   definition or extension of that type, resp. no schema definition or extension): both builds panic, or
+   both return schemas equal up to a renaming of the extension ids (sch_equiv: same order of types,
+   fields, ..., same partition into definition and extensions) with error lists that are permutations of
+   each other (the real list is sorted by location, so only the multiset is observable).  Any prefix,
+   any suffix, all six kinds and the schema definition, kind-mismatched extensions, colliding definitions,
+   built-in targets, both builder configurations.  Hypotheses (decidable, checked by the tie on the real
+   data): the built-in initial state is as bi_b0_ok says; schema definitions in pre, d, mid have a root
+   operation. *)
+Theorem C13_extension_commutes : forall cfg b0 pre e d mid post,
+  bi_b0_ok b0 = true -> bi_doc_ok (pre ++ d :: mid) = true ->
+  sb_extends e d = true -> sb_untouched e mid = true ->
+  sb_result_equiv (sb_build cfg b0 (pre ++ e :: d :: mid ++ post))
+                  (sb_build cfg b0 (pre ++ d :: mid ++ e :: post)).
+Proof. exact bi_commute. Qed.
+Check C13_extension_commutes : forall cfg b0 pre e d mid post,
+  bi_b0_ok b0 = true -> bi_doc_ok (pre ++ d :: mid) = true ->
+  sb_extends e d = true -> sb_untouched e mid = true ->
+  sb_result_equiv (sb_build cfg b0 (pre ++ e :: d :: mid ++ post))
+                  (sb_build cfg b0 (pre ++ d :: mid ++ e :: post)).
+Print Assumptions C13_extension_commutes.
+
+(* the special case mid = []: there the two schemas are EQUAL (same extension ids), for any b0 *)
+Theorem C13_extension_adjacent : forall cfg b0 pre e d post,
   sb_extends e d = true ->
   sb_result_perm (sb_build cfg b0 (pre ++ e :: d :: post)) (sb_build cfg b0 (pre ++ d :: e :: post)).
 Proof. exact sb_commute_adjacent. Qed.
-Check C13_extension_commutes_partial : forall cfg b0 pre e d post,
+Check C13_extension_adjacent : forall cfg b0 pre e d post,
   sb_extends e d = true ->
   sb_result_perm (sb_build cfg b0 (pre ++ e :: d :: post)) (sb_build cfg b0 (pre ++ d :: e :: post)).
-Print Assumptions C13_extension_commutes_partial.
+Print Assumptions C13_extension_adjacent.
+
+(* No model of ExecutableDocumentBuilder::add_ast_document: the second half of the first sentence of the
+   property (executable documents from several sources) is checked on the implementation only. *)
 
 (* non-vacuity: `extend union X @d` before / after `type X { f: Int }` (the former D11): in both
    orders one TypeExtensionKindMismatch and the same schema *)
@@ -51,8 +69,22 @@ Definition c13_def : definition :=
   DObject None c13_X [] [] [{| fd_desc := None; fd_name := c13_f; fd_args := []; fd_ty := TNamed c13_Int; fd_dirs := [] |}].
 Definition c13_cfg : sb_cfg := {| sbc_adopt := false; sbc_ignore_builtin := false |}.
 
+Definition c13_mid : list definition := [XScalar c13_Int [{| d_name := c13_d; d_args := [] |}]; DScalar None c13_d []].
+Definition c13_e2 : definition := XObject c13_X [] [{| d_name := c13_d; d_args := [] |}] [].
+
 Example C13_nonvacuous :
-  sb_extends c13_e c13_def = true /\
+  bi_b0_ok c13_b0 = true /\ bi_doc_ok (c13_def :: c13_mid) = true /\
+  sb_extends c13_e c13_def = true /\ sb_untouched c13_e c13_mid = true /\
+  sb_extends c13_e2 c13_def = true /\ sb_untouched c13_e2 c13_mid = true /\
   (exists s, sb_build c13_cfg c13_b0 [c13_e; c13_def] = SbBuilt s [SbeTypeExtensionKindMismatch c13_X SbUnion SbObject]
-          /\ sb_build c13_cfg c13_b0 [c13_def; c13_e] = SbBuilt s [SbeTypeExtensionKindMismatch c13_X SbUnion SbObject]).
-Proof. split; [reflexivity|]. eexists. split; vm_compute; reflexivity. Qed.
+          /\ sb_build c13_cfg c13_b0 [c13_def; c13_e] = SbBuilt s [SbeTypeExtensionKindMismatch c13_X SbUnion SbObject]) /\
+  (* with `extend scalar Int @d` in between the ids differ (0 / 1 swapped) but the schemas are equivalent *)
+  (exists s1 s2, sb_build c13_cfg c13_b0 (c13_e2 :: c13_def :: c13_mid) = SbBuilt s1 [] /\
+                 sb_build c13_cfg c13_b0 (c13_def :: c13_mid ++ [c13_e2]) = SbBuilt s2 [] /\ s1 <> s2 /\ sch_equiv s1 s2).
+Proof.
+  split; [reflexivity|]. split; [reflexivity|]. split; [reflexivity|]. split; [reflexivity|].
+  split; [reflexivity|]. split; [reflexivity|]. split.
+  - eexists. split; vm_compute; reflexivity.
+  - eexists. eexists. split; [vm_compute; reflexivity|]. split; [vm_compute; reflexivity|]. split; [discriminate|].
+    vm_compute. reflexivity.
+Qed.
